@@ -116,8 +116,32 @@ fn token(rng: &mut Rng, after_identifier: bool) -> String {
     }
 }
 
+/// text for string literals and quoted DATA items: everything that a renderer which "tidies" blanks or
+/// escapes characters would change
+const TRICKY_TEXT: &[&str] = &[
+    "NAME ; SCORE , LEVEL",
+    "F ( X )",
+    "ONE , TWO",
+    "a ) b ( c",
+    "tab\there",
+    "back\\slash C:\\GAMES",
+    "  lead",
+    "trail  ",
+    "x  y   z",
+    "THEN ELSE : REM not a remark",
+    "1 + 1 = 2",
+    "é ; 日本 , 💥 )",
+    "it's",
+    "combining e\u{301}",
+    "zero\u{200b}width",
+    "ctrl\u{1}\u{7f}",
+    "( ( ; ; , , ) )",
+];
+
 fn stress_line(rng: &mut Rng) -> String {
-    match rng.below(8) {
+    match rng.below(10) {
+        8 => format!("PRINT \"{}\"", rng.pick(TRICKY_TEXT)),
+        9 => format!("DATA \"{}\", \"{}\"", rng.pick(TRICKY_TEXT), rng.pick(TRICKY_TEXT)),
         0..=1 => data_stmt(rng),
         2 => format!("REM{}", rng.pick(&[" note", "", "ark", " é : PRINT 1", "  two  blanks", "\"quote"])),
         3 => format!("PRINT {} : {}", numeral(rng), data_stmt(rng)),
